@@ -13,7 +13,8 @@ for d in $V/seeded/$pat/; do
   id=$(basename "$d"); prop=${id%%-*}
   grep -q '"retired"' "$d/meta.json" 2>/dev/null && { echo "$id $prop RETIRED (no longer breaks the property; see meta.json)" >> "$out"; continue; }
   git -C $R apply "$d/patch.diff" 2>/dev/null || { echo "$id $prop PATCH-DOES-NOT-APPLY" >> "$out"; continue; }
-  res=$($V/check "$prop" 2>&1 | grep -E "^(VIOLATION|OK|KNOWN|  )" | head -6)
+  $V/check "$prop" > $V/matrix.last 2>&1
+  res=$(grep -E -A1 "^(VIOLATION|OK|KNOWN)" $V/matrix.last | grep -v "^--" | head -8)
   git -C $R apply -R "$d/patch.diff"
   if echo "$res" | grep -q "^VIOLATION"; then
     what=$(echo "$res" | grep -A1 "^VIOLATION" | sed -n 2p | cut -c1-220)
